@@ -83,6 +83,8 @@ type evalCfg struct {
 	Skip func(t *doc.Tree, ctx int, want ref.Value) bool
 	// NonTrivial, if non-nil, replaces the default non-triviality rule.
 	NonTrivial func(env *ref.Env, ctx int, ast gen.Expr, want ref.Value) bool
+	// Env, if non-nil, adjusts the reference environment (fragment flags).
+	Env func(env *ref.Env)
 	// SigOf overrides the default signature skeleton.
 	SigOf func(ast gen.Expr) string
 }
@@ -138,6 +140,9 @@ func runExprOnDocs(cfg *evalCfg, w *explore.Worker, s string, ast, base gen.Expr
 	w.Sample(s + " on " + docs[len(docs)/2].String())
 	for _, t := range docs {
 		env := &ref.Env{T: t, NSMap: nsIf(withNS, ns), NavHasURI: navNS}
+		if cfg.Env != nil {
+			cfg.Env(env)
+		}
 		for ctx := range t.Nodes {
 			want := ref.Eval(env, ctx, ast)
 			if want.T == ref.TUndef {
